@@ -175,7 +175,12 @@ def make_builtins(interp):
             return isinstance(obj, PyRaise) and (obj.exc_type == cls.name or cls.name in ("Exception", "BaseException"))
         if isinstance(cls, Opaque):
             if isinstance(obj, (Instance, NDArr)) or is_scalar(obj) or isinstance(obj, (str, list, tuple, dict)) or obj is None:
-                return False if "numbers" not in cls.what else (is_num(obj))
+                if "numbers" in cls.what:
+                    return is_num(obj)
+                # classes of libraries that are not modelled: none of the modelled values is an instance
+                if any(t in cls.what for t in FOREIGN_CLASSES):
+                    return False
+                ISINSTANCE_OPAQUE_LOG.add(cls.what)
             return Opaque("isinstance")
         raise Unsupported(f"isinstance(_, {cls!r})")
 
@@ -339,6 +344,11 @@ def make_builtins(interp):
                 "FloatingPointError", "ArithmeticError", "LookupError", "OSError", "BaseException"):
         b[exc] = ExcTag(exc)
     return b
+
+
+# unmodelled library classes whose instances cannot occur among the modelled values (isinstance is False)
+FOREIGN_CLASSES = ("sympy", "h5py", "numba.types", "nb.types", "types.", "jax", "torch", "scipy", "mpi4py", "pathlib", "Path", "logging", "matplotlib", "ExprRef")
+ISINSTANCE_OPAQUE_LOG: set = set()
 
 
 class ExcTag:
@@ -871,6 +881,8 @@ def make_stub_modules(interp):
     mods = {
         "numpy": np_, "math": make_math(interp), "numba": nb_, "numba.extending": nb_.attrs["extending"],
         "numbers": StubModule("numbers", {"Number": TypeTag("Number", None), "Real": TypeTag("Real", None), "Integral": TypeTag("Integral", None), "Complex": TypeTag("Complex", None)}),
+        "collections": StubModule("collections", {"abc": StubModule("collections.abc", {"Sequence": TypeTag("Sequence", None), "Iterable": TypeTag("Iterable", None), "Callable": TypeTag("Callable", None)}),
+                                                  "OrderedDict": TypeTag("dict", lambda *a, **k: dict(*a, **k)), "defaultdict": Opaque("collections.defaultdict")}),
         "collections.abc": StubModule("collections.abc", {"Sequence": TypeTag("Sequence", None), "Iterable": TypeTag("Iterable", None), "Callable": TypeTag("Callable", None)}),
         "typing": StubModule("typing", {"TYPE_CHECKING": False, "Any": Opaque("Any"), "Callable": TypeTag("Callable", None), "Literal": Opaque("Literal"), "cast": lambda t, v: v}),
         "itertools": StubModule("itertools", {"product": lambda *its, repeat=1: [tuple(p) for p in itertools.product(*[interp.iterate(i) for i in its], repeat=repeat)], "chain": lambda *its: [x for i in its for x in interp.iterate(i)]}),
